@@ -108,7 +108,7 @@ def next_section(name="", report=MAIN_REPORT):
         report[TOOL_NAME]['success'] = None
         report.start_group(report[TOOL_NAME]['section_group'])
     else:
-        not_enough_sections(section_number, found)
+        not_enough_sections(section_number, found, report=report)
     report.execute_hooks(TOOL_NAME, 'next_section.after')
 
 
